@@ -120,6 +120,9 @@ func (e *Exec) resetPath(dec []int64, no int) {
 	e.pc = nil
 	e.jsVals = nil
 	e.jsGlobals = nil
+	e.httpStates = map[*Cell]*httpState{}
+	e.bodyOwner = map[*Arr]*httpState{}
+	e.jsonVals = map[*Arr]*IfaceV{}
 	e.traceClass = ""
 	e.randStreams = nil
 	e.randLens = nil
